@@ -53,8 +53,7 @@ def rule_r1(ctx):
 
 def rule_r2(ctx):
     r = ctx.rule("C12.R2", "T3", "req0_run_send_queue appends the context to p->contexts (so pipe loss finds it) and, when retry > 0, "
-                 "to the retry queue and clones the retained message, all before nni_pipe_send; the retry queue / clone are "
-                 "used only under ctx->retry > 0", floor=4)
+                 "to the retry queue, all before nni_pipe_send; the retry queue is used only under ctx->retry > 0", floor=3)
     prog = ctx.prog
     f = prog.need("req0_run_send_queue", "reqrep0/req.c")
     sends = G.need_sites([s for s in f.calls("nni_pipe_send")], "nni_pipe_send", f)
@@ -68,8 +67,9 @@ def rule_r2(ctx):
     on = G.cmp_edges(f, lambda n: n.get("k") == "mem" and n["f"] == "retry", {">": 0, "<=": 1})
     for g in (f, prog.need("req0_ctx_send", "reqrep0/req.c")):
         on_g = G.cmp_edges(g, lambda n: n.get("k") == "mem" and n["f"] == "retry", {">": 0, "<=": 1})
-        guarded = [s for s in g.calls("nni_list_append") if "retry_queue" in show(g.expand(s.node["args"][0]))] + \
-                  [s for s in g.calls("nni_msg_clone")]
+        # (whether the context keeps a reference of its own to the request is an ownership matter -- C03.O3 -- and not
+        # what makes a request single-shot: only the retry queue and the re-queueing in req0_pipe_close resend)
+        guarded = [s for s in g.calls("nni_list_append") if "retry_queue" in show(g.expand(s.node["args"][0]))]
         for s in guarded:
             if on_g and G.dominated(g, (s.b, s.i), on_g):
                 r.ob(g, "%s line %s only when retry > 0" % (s.node["fn"], s.line))
